@@ -441,17 +441,17 @@ def tracing_prog(r, idx, tid, ncpu, first="I", heavy=False, illegal=False, rank=
 
 
 def delay_ops(r):
-    p = r.below(6)
-    if p == 0:
+    p = r.below(20)
+    if p < 8:
         return []
-    if p == 1:
+    if p < 13:
+        return ["S%d" % r.range(1, 60)]
+    if p < 15:
         return ["Y"]
-    if p == 2:
-        return ["Y", "Y"]
-    if p == 3:
-        return ["S%d" % r.range(1, 400)]
-    if p == 4:
-        return ["S%d" % r.range(400, 20000)]
+    if p < 17:
+        return ["S%d" % r.range(60, 2000)]
+    if p < 19:
+        return ["S%d" % r.range(2000, 20000)]
     return ["U%d" % r.range(1, 40)]
 
 
@@ -460,7 +460,19 @@ def gen_trial(r, kind, k):
          "tmpdir": r.chance(1, 4), "threads": [], "may_refuse": [], "main_init": 0, "main_fini": 0}
     base = 7000 + 10 * r.below(100)
     rank = (t["pid"] % 4, 4)
-    if kind == "init":
+    if kind in ("init-pure", "fini-pure"):
+        # nothing but the racing call, 6-8 racers released by the spinning barrier: the narrowest windows
+        n = r.range(6, 8)
+        for i in range(n):
+            d = ["S%d" % r.range(1, 40)] if r.chance(1, 3) else []
+            t["threads"].append(d + ["P" if kind == "init-pure" else "Q"])
+            t["may_refuse"].append({len(d)})
+        t["tmpdir"] = False
+        if kind == "init-pure":
+            t["main_fini"] = 1
+        else:
+            t["main_init"] = 1
+    elif kind == "init":
         n = r.range(2, 8)
         nj = r.range(1, 2) if r.chance(2, 5) and n <= 6 else 0
         for i in range(n):
@@ -469,7 +481,7 @@ def gen_trial(r, kind, k):
             t["threads"].append(d + ["P"] + cont)
             t["may_refuse"].append({len(d)})
         for j in range(nj):      # late joiners: ovni_thread_init retried until the process is READY
-            t["threads"].append(delay_ops(r) + tracing_prog(r, n + j, base + n + j, n + nj, first="W", rank=rank))
+            t["threads"].append((delay_ops(r) if r.chance(1, 4) else []) + tracing_prog(r, n + j, base + n + j, n + nj, first="W", rank=rank))
             t["may_refuse"].append(set())
         t["main_fini"] = 1
     elif kind == "fini":
@@ -744,7 +756,7 @@ def model_obs_events(obs, codes):
 
 
 # ------------------------------------------------------------------ running one trial on the real library
-def run_trial(exe, t, wd, tsan=False, timeout=60):
+def run_trial(exe, t, wd, tsan=False, timeout=25):
     d = os.path.join(wd, "%s%s-%d" % ("ts-" if tsan else "", t["kind"], t["k"]))
     os.makedirs(d)
     os.chmod(d, 0o777)
@@ -767,10 +779,10 @@ def run_trial(exe, t, wd, tsan=False, timeout=60):
         rc, out, err = "timeout", "", ""
     res = {"rc": rc, "threads": {}, "main": None, "dir": d, "stderr_tail": err[-1500:], "tsan": []}
     for line in out.split("\n"):
-        m = re.match(r"t (\d+) done=(\d+) died=(-?\d+) retries=(\d+)", line)
+        m = re.match(r"t (\d+) done=(\d+) died=(-?\d+) retries=(\d+) why=(.*)$", line)
         if m:
             res["threads"][int(m.group(1))] = {"done": int(m.group(2)), "died": None if m.group(3) == "-1" else int(m.group(3)),
-                                                "retries": int(m.group(4))}
+                                                "retries": int(m.group(4)), "why": m.group(5)}
         m = re.match(r"main init=(\w+) fini=(\w+)", line)
         if m:
             res["main"] = (m.group(1), m.group(2))
@@ -813,7 +825,8 @@ def judge(chk, t, res, libver, modelver, build, oracle_pred, tag=""):
     kind = t["kind"]
     ident = "%s%s-%d" % (tag, kind, t["k"])
     if res["rc"] != 0 or res["main"] is None or len(res["threads"]) != len(t["threads"]):
-        viol.append(("driver-failed:" + ident, "driver did not complete (rc=%s): %s" % (res["rc"], res["stderr_tail"][-300:])))
+        viol.append(("driver-crashed", "trial %s: the process running the real library did not complete (exit %s): %s"
+                     % (ident, res["rc"], res["stderr_tail"][-300:])))
         return viol, corr
     np_ok = nq_ok = np_call = nq_call = 0
     all_fin = True
@@ -837,7 +850,7 @@ def judge(chk, t, res, libver, modelver, build, oracle_pred, tag=""):
     if np_call and np_ok != 1:
         viol.append(("init-not-once:%d-of-%d" % (np_ok, np_call),
                      "%d of %d concurrent ovni_proc_init calls took effect (exactly one must, the others must be refused)" % (np_ok, np_call)))
-    if nq_call and np_ok == 1 and nq_ok != 1 and kind in ("fini", "iso", "init"):
+    if nq_call and np_ok == 1 and nq_ok != 1:
         viol.append(("fini-not-once:%d-of-%d" % (nq_ok, nq_call),
                      "%d of %d ovni_proc_fini calls on a READY process took effect (exactly one must)" % (nq_ok, nq_call)))
     for i, ops in enumerate(t["threads"]):
@@ -847,8 +860,8 @@ def judge(chk, t, res, libver, modelver, build, oracle_pred, tag=""):
         legit = died is not None and (died in t["may_refuse"][i])
         if died is not None and died != must and not legit:
             viol.append(("unexpected-refusal:%s" % ops[died][0],
-                         "thread %d of trial %s was refused in `%s` (op %d) although nothing in its own history forbids the call: "
-                         "interference or a lost process state" % (i, ident, ops[died], died)))
+                         "thread %d of trial %s was refused in `%s` (op %d, die(\"%s\")) although nothing in its own history forbids the call: "
+                         "interference or a lost process state" % (i, ident, ops[died], died, r.get("why"))))
             all_fin = False
             continue
         if must is not None and died != must and not (died is not None and died < must):
@@ -982,6 +995,7 @@ def run(chk):
         # ---- (3) static: the model knows every process-level object and every access to it
         ties = static_crosscheck(chk, oracle) + symbol_crosscheck(chk, build, wd)
         chk.count("static:functions-compared", len(chk.coverage.get("source_access_table", {})))
+        ties = sorted(set(ties))
         if ties:
             chk.coverage["broken_tie"] = ties
             chk.notes += ties
@@ -993,7 +1007,8 @@ def run(chk):
         rng = chk.rng
         MODELS[:] = emu_models()
         trials = []
-        for kind, n in (("init", chk.budget(200, 2000)), ("fini", chk.budget(200, 2000)), ("iso", chk.budget(100, 1000))):
+        for kind, n in (("init", chk.budget(200, 2000)), ("fini", chk.budget(200, 2000)), ("iso", chk.budget(100, 1000)),
+                        ("init-pure", chk.budget(400, 4000)), ("fini-pure", chk.budget(400, 4000))):
             for k in range(n):
                 trials.append(gen_trial(rng.fork("%s%d" % (kind, k)), kind, k))
 
@@ -1076,7 +1091,15 @@ def run(chk):
             def count(self, k, n=1):
                 self.h.append((k, n))
         chk_proxy = _Proxy()
-        results = trace.pmap(one, list(range(len(trials))), workers=min(common.NCPU, 12))
+        results = []
+        stopped = False
+        for lo in range(0, len(trials), 48):        # in chunks, so that a badly broken tree does not cost the whole budget
+            results += trace.pmap(one, list(range(lo, min(lo + 48, len(trials)))), workers=min(common.NCPU, 12))
+            if len({key for (_, v, _, _) in results for key, _ in v}) >= 6 or sum(1 for (_, v, _, _) in results if v) >= 40:
+                stopped = True
+                chk.notes.append("search stopped after %d of %d trials: enough violations" % (len(results), len(trials)))
+                break
+        trials_run = trials[:len(results)]
         for k, n in chk_proxy.h:
             chk.count(k, n)
         corr_all = []
@@ -1108,12 +1131,12 @@ def run(chk):
                 else:
                     chk.violation("ovniemu-rejects:" + t["kind"], "the trace of a multi-threaded run in which every thread finished is rejected by ovniemu",
                                   {"trial": t, "script": script_of(t), "ovniemu_exit": emu[0], "stderr": emu[1]})
-        chk.coverage["traces_validated_against_impl"] = len(trials)
+        chk.coverage["traces_validated_against_impl"] = len(results)
         chk.coverage["traces_accepted_by_ovniemu"] = emu_ok
         if trials:
             t0 = trials[0]
             chk.sample({"kind": t0["kind"], "script": script_of(t0), "result": {k: results[0][0].get(k) for k in ("threads", "main", "counts")}})
-            t1 = trials[-1]
+            t1 = trials[len(results) - 1]
             chk.sample({"kind": t1["kind"], "script": script_of(t1)[:1500], "result": {k: results[-1][0].get(k) for k in ("threads", "main", "counts")}})
 
         # ---- (2) support: ThreadSanitizer on the same driver
@@ -1122,16 +1145,23 @@ def run(chk):
             chk.violation("tsan-build-failed", "the ThreadSanitizer build of libovni + driver does not compile", {"stderr": tsan_err}, found_input=False)
         else:
             sub = []
-            for kind, n in (("init", chk.budget(40, 300)), ("fini", chk.budget(40, 300)), ("iso", chk.budget(40, 300))):
+            for kind, n in (("init", chk.budget(40, 300)), ("fini", chk.budget(40, 300)), ("iso", chk.budget(40, 300)),
+                            ("init-pure", chk.budget(40, 300)), ("fini-pure", chk.budget(40, 300))):
                 sub += [t for t in trials if t["kind"] == kind][:n]
 
             def one_ts(t):
-                res = run_trial(tx, t, wd, tsan=True, timeout=180)
+                res = run_trial(tx, t, wd, tsan=True, timeout=90)
                 v, c = judge(_Proxy(), t, res, libver, modelver, build, None, tag="tsan-")
                 reps = tsan_reports(res)
                 shutil.rmtree(res["dir"], ignore_errors=True)
                 return res, v, reps
-            tres = trace.pmap(one_ts, sub, workers=min(common.NCPU, 8))
+            tres = []
+            for lo in range(0, len(sub), 24):
+                tres += trace.pmap(one_ts, sub[lo:lo + 24], workers=min(common.NCPU, 8))
+                if sum(len(reps) for (_, _, reps) in tres) >= 10 or sum(1 for (_, v, _) in tres if v) >= 10:
+                    chk.notes.append("TSan search stopped after %d of %d trials" % (len(tres), len(sub)))
+                    break
+            sub = sub[:len(tres)]
             nrep = 0
             for t, (res, v, reps) in zip(sub, tres):
                 chk.case(("tsan", t["kind"], script_of(t)))
@@ -1143,7 +1173,8 @@ def run(chk):
                     m = TSAN_LIB.findall(rep)
                     loc = re.search(r"SUMMARY: ThreadSanitizer: data race (\S+) in (\w+)", rep)
                     if m:
-                        where = loc.group(2) if loc else "libovni"
+                        fr = re.search(r"#\d+ (\w+) \S*/src/(?:rt/ovni\.c|common\.c|parson\.c)", rep)
+                        where = loc.group(2) if loc else (fr.group(1) if fr else "libovni")
                         chk.violation("data-race:" + where, "ThreadSanitizer: data race inside libovni (%s)" % (loc.group(0) if loc else "?"),
                                       {"trial": t, "script": script_of(t), "report": rep[:6000],
                                        "how": "clang -fsanitize=thread build of harness/rtconc_drv.c + src/rt/ovni.c src/common.c src/parson.c; run the script"})
